@@ -98,6 +98,7 @@ template <class S> static void c14(Rng& r, std::vector<std::string> names, int p
   }
 }
 
+static long g_repeat = 12000;
 template <class S> static void c15(Rng& r, const std::vector<std::string>& names, int part, int nparts) {
   const std::string P = ST<S>::name();
   Model<S> m;
@@ -117,7 +118,10 @@ template <class S> static void c15(Rng& r, const std::vector<std::string>& names
         S a[4]; for (int i = 0; i < 4; i++) a[i] = (S)r.uni(-2.0L, 2.0L);
         int idx = (e.kind == KI) ? 1 + r.below(3) : r.below(7);
         hist("masa_eval_" + e.id + "<" + P + "> on " + name + " [not provided]");
-        CAP.begin(); S v = call_ev<S>(e, a, idx, cbK<S>()); std::string out = CAP.end();
+        // "at arbitrary arguments": the callback overloads also with a null function pointer (a stub never looks at it)
+        const bool nullcb = e.kind == KF && k % 2 == 1;
+        if (nullcb) { hist("  ... with a NULL callback"); LOG.count("unprovided_callback_evaluators_called_with_a_null_pointer", 1); }
+        CAP.begin(); S v = call_ev<S>(e, a, idx, nullcb ? (FP<S>) nullptr : cbK<S>()); std::string out = CAP.end();
         CNT.evals++;
         std::string det = JObj().str("solution", name).str("evaluator", e.id).str("precision", P).num("returned", (long double)v).str("stdout", out.substr(0, 160)).done();
         if (!biteq(v, sentinel<S>())) hviol("C15", "unprovided-evaluator-returned-a-value:" + name + ":" + e.id, "an evaluator the solution does not provide returned " + sval(v) + " instead of -1.33", det);
@@ -132,6 +136,26 @@ template <class S> static void c15(Rng& r, const std::vector<std::string>& names
       if (masa_verif_selected_handle<S>() != "c15" || masa_verif_registry_size<S>() != 1 || listing<S>() != list0)
         hviol("C15", "unprovided-evaluator-altered-registry:" + name + ":" + e.id, "registry/selection changed after calling an unprovided evaluator");
     }
+    // persistence: the SAME unprovided evaluator called many thousand times in a row on this instance must print its line every single time
+    {
+      std::vector<int> un;
+      for (size_t i = 0; i < api().size(); i++) if (!sp->prov.count(api()[i].id) && !sp->unspec.count(api()[i].id)) un.push_back((int)i);
+      if (!un.empty()) {
+        const Ev& e = api()[(size_t)un[(size_t)r.below((int)un.size())]];
+        S a[4]; for (int i = 0; i < 4; i++) a[i] = (S)r.uni(-2.0L, 2.0L);
+        hist("masa_eval_" + e.id + "<" + P + "> on " + name + " [not provided] x " + std::to_string(g_repeat) + " in a row");
+        for (long k = 0; k < g_repeat; k++) {
+          CAP.begin(); S v = call_ev<S>(e, a, 1, cbK<S>()); std::string out = CAP.end();
+          if (!biteq(v, sentinel<S>()) || out.find("MASA ERROR") == std::string::npos) {
+            hviol("C15", "unprovided-evaluator-silent-after-repeats:" + name, "call number " + std::to_string(k + 1) + " in a row of an unprovided evaluator returned " + sval(v) + " and printed '" + out.substr(0, 60) + "'",
+                  JObj().str("solution", name).str("evaluator", e.id).num("call_number", (long)(k + 1)).done());
+            break;
+          }
+        }
+        CNT.evals += g_repeat;
+        LOG.count("consecutive_identical_stub_calls", g_repeat);
+      }
+    }
   }
 }
 
@@ -141,8 +165,12 @@ int main(int argc, char** argv) {
   install_crash_handlers();
   uint64_t seed = strtoull(getarg(argc, argv, "--seed", "1").c_str(), 0, 10);
   std::string mode = getarg(argc, argv, "--mode", "c14"), prec = getarg(argc, argv, "--prec", "d");
+  g_repeat = atol(getarg(argc, argv, "--repeat", "12000").c_str());
   int part = atoi(getarg(argc, argv, "--shard", "0").c_str()), nparts = atoi(getarg(argc, argv, "--parts", "1").c_str());
   Rng r(seed, 5100 + (uint64_t)part);
+  // the catalogue must read the same whether it is listed before or after the first masa_init of a precision: in the c14 shards the
+  // precision under test initialises one solution BEFORE its catalogue is listed for the first time, the other precision lists first
+  if (mode == "c14") { CAP.begin(); if (prec == "d") masa_init<double>("pre", "euler_1d"); else masa_init<long double>("pre", "heateq_2d_steady_const"); CAP.end(); }
   std::vector<std::string> nd = printid_names<double>(), nl = printid_names<long double>();
   if (mode == "c14") {
     if (nd != nl) hviol("C14", "catalogues-differ", "masa_printid<double> and masa_printid<long double> list different catalogues (" + std::to_string(nd.size()) + " vs " + std::to_string(nl.size()) + " names)");
@@ -155,6 +183,12 @@ int main(int argc, char** argv) {
     for (auto& s : catalogue()) if (!seen.count(s.name)) LOG.distinct("spec_entries_missing_from_build", s.name);
     for (int policy = 0; policy < 5; policy++) {
       if (prec == "d") c14<double>(r, nd, policy, policy == 0 ? 16 : 3); else if (policy < 4) c14<long double>(r, nl, policy, policy == 0 ? 16 : 3);
+      // the catalogue listing is the same whenever it is asked for (before any masa_init, after some, after all), in both precisions
+      std::vector<std::string> nd2 = printid_names<double>(), nl2 = printid_names<long double>();
+      if (nd2 != nd || nl2 != nl)
+        hviol("C14", "catalogue-listing-changed", "masa_printid lists " + std::to_string(nd2.size()) + " (double) / " + std::to_string(nl2.size()) + " (long double) names after " + std::to_string(policy + 1) +
+              " passes of masa_init, " + std::to_string(nd.size()) + " / " + std::to_string(nl.size()) + " before any");
+      LOG.count("catalogue_listings_compared", 1);
     }
   } else {
     if (prec == "d") c15<double>(r, nd, part, nparts); else c15<long double>(r, nl, part, nparts);
